@@ -11,6 +11,9 @@ R.contract(M_CQ + ":ChoiceQuestion.error_message", params={}, returns="str", ens
 VALIDATE = M_CQ + ":SelectChoiceValidator.validate"
 R.abstractions = getattr(R, "abstractions", {})
 R.abstractions[VALIDATE] = [
+    ("re.match(*", "bool",
+     "the format check of a multi-select answer (a regular expression over the typed text) accepts or rejects: what comes "
+     "back when it accepts is what the contract is about; which texts it accepts is checked by the bounded tier"),
     ("' or '.join((str(r) for r in results))", "str", "text of the ambiguity message (not part of the contract)"),
     ("[choice.strip() for choice in selected.split(',')]", "list[str]",
      "the typed values of a multi-select answer: some list of strings (how the answer is split is checked by the bounded tier)"),
